@@ -47,6 +47,9 @@ def _alarm(signum, frame):
 _PROP = None
 
 
+_SEED = int(os.environ.get('VERIF_SEED') or 0)
+
+
 def _worker_init(prop_name):
     global _PROP
     repo_on_path()
@@ -80,8 +83,20 @@ def _worker_run(item):
     limit = getattr(_PROP, 'CASE_TIMEOUT', 120)
     signal.signal(signal.SIGALRM, _alarm)
     signal.setitimer(signal.ITIMER_REAL, limit)
+    # every PROCESS_EVERY-th case of a check that opts in runs the command line as a REAL process, in one of
+    # several ordinary environments (seams.PROC_VARIANTS), instead of calling main() in this process
+    every = getattr(_PROP, 'PROCESS_EVERY', 0)
+    from . import seams as _seams
+    variant = None
+    if every and idx % every == every - 1 and os.environ.get('VERIF_NO_PROC') != '1':
+        variant = _seams.PROC_VARIANTS[(idx // every + _SEED) % len(_seams.PROC_VARIANTS)]
+    _seams.set_proc_variant(variant)
     try:
         recs = _PROP.run_case(case)
+        if variant:
+            for r in recs or []:
+                if isinstance(r, dict):
+                    r.setdefault('via_process', variant)
         return idx, recs, None
     except CaseTimeout as e:
         # where was the case when the alarm fired?  Inside the code under test: a hang of the real code,
@@ -114,6 +129,7 @@ def _worker_run(item):
         return idx, None, traceback.format_exc()
     finally:
         signal.setitimer(signal.ITIMER_REAL, 0)
+        _seams.set_proc_variant(None)
 
 
 def drive(prop_name, cases, procs=16, chunks=8):
